@@ -20,6 +20,7 @@ Terms are nested tuples (hashable):
   ("upd", base, path, value)          opaque aggregate with one component overwritten
 """
 import re
+from . import cfg as _cfg
 
 MASKS = {"u8": 8, "u16": 16, "u32": 32, "u64": 64, "u128": 128, "usize": 64,
          "i8": 8, "i16": 16, "i32": 32, "i64": 64, "i128": 128, "isize": 64, "bool": 1, "char": 32}
@@ -107,6 +108,7 @@ class State:
         self.neq = {}       # opaque int term -> set of ints it differs from
         self.trace = []     # ordered effects of modelled operations
         self.next_frame = 0
+        self.stack = ()
 
     def fork(self):
         s = State()
@@ -118,6 +120,7 @@ class State:
         s.neq = {k: set(v) for k, v in self.neq.items()}
         s.trace = list(self.trace)
         s.next_frame = self.next_frame
+        s.stack = self.stack
         return s
 
     def new_frame(self, key, body):
@@ -236,8 +239,9 @@ def pj_elem(engine, state, frame, e):
 
 
 class Engine:
-    def __init__(self, P, opaque=(), inline_depth=6, max_states=60000, subst=None, models=None, inline_extern=()):
+    def __init__(self, P, opaque=(), inline_depth=6, max_states=60000, subst=None, models=None, inline_extern=(), loops="fail"):
         self.P = P
+        self.loops = loops          # "fail": a back edge raises NotTabulable; "havoc": generic-iteration abstraction
         self.opaque = set(opaque)
         self.inline_depth = inline_depth
         self.max_states = max_states
@@ -667,23 +671,40 @@ class Engine:
         return [(state, app)]
 
     def in_stack(self, state, key):
-        return sum(1 for f in state.frames.values() if f.key == key and f.id < 1000000) > 3
+        return key in state.stack
 
     # ---------------------------------------------------------- execution
-    def run_body(self, state, key, body, args, depth):
+    def run_body(self, state, key, body, args, depth, start=0, stops=(), init_locals=False):
         frame = state.new_frame(key, body)
+        if init_locals:
+            for i, l in enumerate(body["locals"]):
+                frame.locals[i] = ("init", i, l.get("n"))
         for i, a in enumerate(args):
             frame.locals[i + 1] = a
         fid = frame.id
+        entry_stack = state.stack
+        state.stack = entry_stack + (key,)
         out = []
-        work = [(state, 0, frozenset())]
+        loops = _cfg.cfg_of(body).loops() if self.loops == "havoc" else {}
+        work = [(state, start, frozenset())]
         while work:
             st, bi, seen = work.pop()
             self.states_created += 1
             if self.states_created > self.max_states:
                 raise NotTabulable(f"state explosion in {key}")
             if bi in seen:
+                if bi in loops:
+                    # back edge: one generic iteration has been summarised; the path ends here
+                    st.stack = entry_stack
+                    out.append((st, ("loopback", bi, depth)))
+                    continue
                 raise NotTabulable(f"loop in {key} at bb{bi}")
+            if bi in stops and seen:
+                st.stack = entry_stack
+                out.append((st, ("stop", bi)))
+                continue
+            if bi in loops:
+                self.havoc_loop(st, st.frames[fid], body, bi, loops[bi])
             seen = seen | {bi}
             fr = st.frames[fid]
             blk = body["blocks"][bi]
@@ -702,6 +723,7 @@ class Engine:
             if k == "goto":
                 work.append((st, t["t"], seen))
             elif k == "ret":
+                st.stack = entry_stack
                 out.append((st, fr.locals.get(0, ("tuple", ()))))
             elif k == "switch":
                 for st2, tgt in self.switch(st, fr, t):
@@ -713,7 +735,10 @@ class Engine:
                     out.append((st, ("panic", callee, t.get("sp", ""))))
                     continue
                 for st2, res in self.call(st, fr, t, depth):
+                    if res[0] == "loopback":
+                        continue      # a generic iteration of a callee's loop: not a return
                     if res[0] == "panic":
+                        st2.stack = entry_stack
                         out.append((st2, res))
                         continue
                     fr2 = st2.frames[fid]
@@ -740,6 +765,26 @@ class Engine:
             else:
                 raise NotTabulable(f"terminator {k} in {key}")
         return out
+
+    def havoc_loop(self, st, fr, body, header, blocks):
+        """Generic-iteration abstraction: every place assigned inside the loop gets an opaque loop-carried value."""
+        n = 0
+        for p in _cfg.assigned_places(body, sorted(blocks)):
+            tag = ("loopvar", header, p["l"], tuple(str(e) if not isinstance(e, dict) else tuple(sorted((k, str(v)) for k, v in e.items() if k in ("f", "dc", "n"))) for e in p["pj"]))
+            if not p["pj"]:
+                fr.locals[p["l"]] = tag
+            else:
+                has_deref = any(e == "d" for e in p["pj"])
+                try:
+                    loc = self.loc_of_place(st, fr, p)
+                except Exception:
+                    continue
+                if has_deref or loc[0] != "local" or loc[1] != fr.id:
+                    self.write_loc(st, loc, tag)
+                else:
+                    self.write_loc(st, loc, tag)
+            n += 1
+        return n
 
     def switch(self, st, fr, t):
         d = self.operand(st, fr, t["d"])
@@ -838,6 +883,30 @@ class Engine:
         leaves = self.run_body(st, key, body, list(args), 0)
         out = [Leaf(s, self.freeze(s, r)) for s, r in leaves]
         return out if keep_panics else [l for l in out if l.ret[0] != "panic"]
+
+    def region(self, key, start, stops=()):
+        """Outcomes of executing `key` from block `start` in a fully opaque state until a block of `stops`, a return,
+        a panic, or the back edge of a loop (generic-iteration abstraction)."""
+        body = self.P.body(key)
+        st = State()
+        self.states_created = 0
+        args = [("param", i, body["locals"][i + 1].get("n", f"arg{i}")) for i in range(body["argc"])]
+        saved, self.loops = self.loops, "havoc"
+        try:
+            res = self.run_body(st, key, body, args, 0, start=start, stops=set(stops), init_locals=True)
+        finally:
+            self.loops = saved
+        return [Leaf(s, self.freeze(s, r)) for s, r in res]
+
+    def paths(self, key, args=None):
+        """(returns, loopbacks, panics) of `key` under the generic-iteration abstraction of its loops."""
+        saved, self.loops = self.loops, "havoc"
+        try:
+            ls = self.tabulate(key, args, keep_panics=True)
+        finally:
+            self.loops = saved
+        return ([l for l in ls if l.ret[0] not in ("panic", "loopback")], [l for l in ls if l.ret[0] == "loopback"],
+                [l for l in ls if l.ret[0] == "panic"])
 
 
 def compose(eng, keys, args=None):
